@@ -415,6 +415,18 @@ def _alts(n: ast.AST) -> list[ast.AST]:
         m = c(n)
         m.args.reverse()
         out.append(m)
+    elif isinstance(n, ast.Slice):
+        # every bound a slice may or may not have: a missing one filled in, a present one dropped
+        for part, fills in (("lower", [1]), ("upper", [5, -1]), ("step", [2, -1])):
+            if getattr(n, part) is None:
+                for v in fills:
+                    m = c(n)
+                    setattr(m, part, ast.Constant(value=v) if v >= 0 else ast.UnaryOp(op=ast.USub(), operand=ast.Constant(value=-v)))
+                    out.append(m)
+            else:
+                m = c(n)
+                setattr(m, part, None)
+                out.append(m)
     if isinstance(n, ast.Attribute) and isinstance(n.ctx, ast.Load) and n.attr in _SIBLINGS:
         for alt in _SIBLINGS[n.attr]:
             m = c(n)
